@@ -71,15 +71,19 @@ def positioned_nodes(tree):
 def classify_program(stored, raw):
     """Narrow signatures of the known findings, from the (minimised) failing program."""
     lines = raw.split("\n")
-    if re.search(r"(?m)^\s*@.*\bfor\b.+\bin\b", stored):
-        return SIG_DECOSCOPE
+    # the open finding first, then the repaired ones (a fixed entry suppresses nothing, but a harmless feature of a
+    # repaired finding must not mask the open one)
     for m in re.finditer(r"(?i)#\s*paroxython\s*:\s*(.*)", raw):
         for tok in m.group(1).split():
             if not tok.startswith(("-", "...", "…")) and tok.lstrip("+").split(":")[0].rstrip(".…") in PREREQ:
                 return SIG_HINTPATH
-    if re.search(r"(?m)^\s*@.*\n\s*async\s+def\b", stored):  # repaired (d0d94f6): tested last, the open findings first
+    if re.search(r"(?m)^\s*@.*\bfor\b.+\bin\b", stored):  # repaired (8ca25b9)
+        return SIG_DECOSCOPE
+    if any(0x1C <= ord(ch) <= 0x1F for ch in raw):  # repaired (80f9da8)
+        return SIG_FS
+    if re.search(r"(?m)^\s*@.*\n\s*async\s+def\b", stored):  # repaired (d0d94f6)
         return SIG_ASYNC
-    if "_pos=" in stored:  # repaired (b1d74a8): after the open findings, so that a harmless `_pos=` literal does not mask them
+    if "_pos=" in stored:  # repaired (b1d74a8)
         return SIG_POSSTR
     return None
 
